@@ -1524,14 +1524,23 @@ class NarySumOpRoller(BasicOpRoller):
                 else:
                     yield RollOutcome(sum(source_roll.outcomes()), sources=source_roll)
 
-        res = self.op(self, _sum_roll_outcomes_by_rolls())
+        summed_roll_outcomes = tuple(_sum_roll_outcomes_by_rolls())
+        res = self.op(self, iter(summed_roll_outcomes))
 
         if isinstance(res, RollOutcome):
             roll_outcomes = (res,)
         else:
             roll_outcomes = res  # type: ignore [assignment]  # TODO(posita): WTF?
 
-        return Roll(self, roll_outcomes=roll_outcomes, source_rolls=source_rolls)
+        roll = Roll(self, roll_outcomes=roll_outcomes, source_rolls=source_rolls)
+
+        # Any implicit sums created above are sources of this roll's outcomes, so they
+        # must be associated with a roll as well (see the note in R.roll)
+        for summed_roll_outcome in summed_roll_outcomes:
+            if summed_roll_outcome._roll is None:
+                summed_roll_outcome._roll = roll
+
+        return roll
 
 
 class BinarySumOpRoller(NarySumOpRoller):
